@@ -36,8 +36,16 @@ def d2(sa=1.0, sb=1.0, m=1.0):
     return pg.Demography(pop_sizes={'a': sa, 'b': sb}, migration_rates={('a', 'b'): m, ('b', 'a'): 1.0})
 
 
-def size_route(route, v):
-    C = pg.Coalescent
+def mk_model(kind):
+    if kind == 'dirac':
+        return pg.DiracCoalescent(psi=0.5, c=1.0)          # scale_time=True: time scale N**2
+    if kind == 'beta':
+        return pg.BetaCoalescent(alpha=1.5)                # scale_time=True: time scale ~ N**(alpha-1)
+    return pg.StandardCoalescent()
+
+
+def size_route(route, v, kind=None):
+    C = lambda **kw: pg.Coalescent(model=mk_model(kind), **kw)
     if route == 'SScalar': return lambda: C(n=3, demography=pg.Demography(pop_sizes=v)).tree_height.mean
     if route == 'SFlatDict': return lambda: C(n=3, demography=pg.Demography(pop_sizes={'pop_0': v})).tree_height.mean
     if route == 'SNestedDict': return lambda: C(n=3, demography=pg.Demography(pop_sizes={'pop_0': {0: 1.0, 0.5: v}})).tree_height.mean
@@ -45,7 +53,7 @@ def size_route(route, v):
     if route == 'SPopSizeChanges': return lambda: C(n=3, demography=pg.Demography(events=[pg.PopSizeChanges({'pop_0': {0: v}})])).tree_height.mean
     if route == 'SDiscreteRateChanges': return lambda: C(n=3, demography=pg.Demography(events=[pg.DiscreteRateChanges(pop_sizes={'pop_0': {0.25: v}})])).tree_height.mean
     if route == 'SEpochToStateSpace':
-        return lambda: pg.state_space.LineageCountingStateSpace(pg.LineageConfig(3), epoch=pg.Epoch(pop_sizes={'pop_0': v})).S
+        return lambda: pg.state_space.LineageCountingStateSpace(pg.LineageConfig(3), model=mk_model(kind), epoch=pg.Epoch(pop_sizes={'pop_0': v})).S
     if route == 'STrajectoryValue':
         return lambda: C(n=3, demography=pg.Demography(events=[pg.DiscretizedRateChange(trajectory=lambda t: v + 0 * t, start_time=0, pop='pop_0', step_size=0.5)]), end_time=2).tree_height.mean
     if route == 'SExponentialInitialSize':
@@ -82,7 +90,7 @@ def request(rq):
     if t == 'RCdfTime': return lambda: C(n=3).tree_height.cdf(np.array([rq[1], 1.0]))
     if t == 'RAccumulateTime': return lambda: C(n=3).tree_height.accumulate(1, [1.0, rq[1]])
     if t == 'RMomentEndTime': return lambda: C(n=3).tree_height.moment(1, end_time=rq[1])
-    if t == 'RPopSize': return size_route(rq[1], rq[2])
+    if t == 'RPopSize': return size_route(rq[1], rq[2], rq[3] if len(rq) > 3 else None)
     if t == 'RMigrationRate': return mig_route(rq[1], rq[2])
     if t == 'RBetaAlpha': return lambda: C(n=3, model=pg.BetaCoalescent(alpha=rq[1], scale_time=False)).tree_height.moment(1, end_time=2.0)
     if t == 'RDiracPsi': return lambda: C(n=3, model=pg.DiracCoalescent(psi=rq[1], c=1.0)).tree_height.moment(1, end_time=2.0)
